@@ -7,6 +7,9 @@ CONSTANTS
   MaxDepth = 0
   FORGET = {}
   NOCOPY = {}
+  OBJ = "grain"
+  ALIASARG = FALSE
+  UNWRITTEN = {}
   EmitMode = 0
 INVARIANT UOrtho
 INVARIANT UDet
